@@ -27,9 +27,24 @@ def cut_points(G):
 LATENCY = 30
 
 
-def make(G, eventless, fold, n, span, fold2=None, latent_only=None):
+def make(G, eventless, fold, n, span, fold2=None, latent_only=None, grown=None):
     reset_clock()
     bearing = [g for i, g in enumerate(G) if i not in eventless]
+    if grown is not None:
+        # the transmitter is first used (an environment built on it, reset and stepped) while grid point `grown` is still
+        # event-less; its bar is added afterwards and a NEW environment is built on the same transmitter
+        folds = {"training-set": list(fold)}
+        tr = Transmitter(list(G), folds=folds)
+        tr.add_events(bar_events([g for g in bearing if g != G[grown]], [A]))
+        env0 = TradingEnv(BoxPortfolio([A], -1, 1), transmitter=tr)
+        try:
+            env0.reset()
+            env0.step(np.zeros(1))
+        except BaseException:
+            pass
+        tr.add_events([EventNBBO(G[grown], A, 70.0, 71.0)])
+        env = TradingEnv(BoxPortfolio([A], -1, 1), transmitter=tr, episode_length=n, sampling_span=span)
+        return env, bearing
     folds = {"training-set": list(fold)}
     if fold2 is not None:
         folds["other"] = list(fold2)
@@ -51,10 +66,10 @@ def make(G, eventless, fold, n, span, fold2=None, latent_only=None):
     return env, bearing
 
 
-def run_case(G, eventless, fold, n, span, fold2=None, which="training-set", latent_only=None, descending=False):
+def run_case(G, eventless, fold, n, span, fold2=None, which="training-set", latent_only=None, descending=False, grown=None):
     """Returns (messages, number of episodes executed, outcome signature)."""
     msgs = []
-    env, bearing = make(G, eventless, fold, n, span, fold2, latent_only)
+    env, bearing = make(G, eventless, fold, n, span, fold2, latent_only, grown)
 
     def shown(step):
         # what env.now() shows when the episode stands on `step`
@@ -161,6 +176,17 @@ def cases(tier):
                 for b in range(2 * i + 3, len(pts)):
                     for n in (None, 1, 2, size - i, size - i + 1):
                         yield (size, (), a, b, n, None, ("latent", i))
+    # a transmitter that was already used when one of its grid points received its first event (new environment on it)
+    for size in (4, 5):
+        pts = cut_points(grid(size))
+        for eventless in ((), (1,)):
+            for i in range(size):
+                if i in eventless:
+                    continue
+                for a in range(0, len(pts), 2):
+                    for b in range(a, len(pts), 2):
+                        for n in (None, 2):
+                            yield (size, eventless, a, b, n, None, ("grown", i))
     # overlapping pairs of folds on one transmitter
     G = grid(5)
     pts = cut_points(G)
@@ -178,7 +204,8 @@ def _work(chunk):
         pts = cut_points(G)
         fold = (pts[a], pts[b])
         lat = second[1] if (second and second[0] == "latent") else None
-        if lat is not None:
+        grown = second[1] if (second and second[0] == "grown") else None
+        if lat is not None or grown is not None:
             second = None
         fold2 = (pts[second[0]], pts[second[1]]) if second else None
         order = [("training-set", False)]
@@ -188,7 +215,7 @@ def _work(chunk):
             order = [("training-set", False), ("training-set", True)]
         for which, desc in order:
             try:
-                msgs, eps, sig = run_case(G, set(eventless), fold, n, span, fold2, which, lat, desc)
+                msgs, eps, sig = run_case(G, set(eventless), fold, n, span, fold2, which, lat, desc, grown)
             except Exception as ex:
                 msgs, eps, sig = ["building/running the case raised %r" % (ex,)], 0, None
             out["evaluations"] += 1
@@ -198,7 +225,7 @@ def _work(chunk):
                 out["nontrivial"].add((size, tuple(eventless), a, b, n, span, second, which))
             if msgs:
                 out["violations"].append(({"kind": "fold", "size": size, "eventless": list(eventless), "a": a, "b": b, "n": n, "span": span,
-                                           "second": list(second) if second else None, "which": which, "latent_only": lat, "descending": desc},
+                                           "second": list(second) if second else None, "which": which, "latent_only": lat, "descending": desc, "grown": grown},
                                           "; ".join(msgs[:3]), (msgs[0].split(" ")[0], n is None, bool(eventless))))
     return out
 
@@ -279,7 +306,7 @@ def run(tier, **kw):
     rep.set("exhaustive", True)
     rep.set("rule", "fold cases: grid size %s x {no event-less point, each single event-less point%s} x EVERY fold window (start <= end) over grid points, "
                     "midpoints and one point beyond each end x episode length None/1..size+1 x sampling span {none, 2} x every start the implementation offers "
-                    "(numpy.random.choice seam); plus overlapping pairs of folds on one transmitter; walk-forward: ALL (N<=14, train, test, sliding/expanding) "
+                    "(numpy.random.choice seam); plus overlapping pairs of folds on one transmitter, and transmitters already used by another environment before one grid point received its first event; walk-forward: ALL (N<=14, train, test, sliding/expanding) "
                     "with train+test<=N. non-trivial = distinct fold case with an episode length, an event-less point or a second fold, or walk-forward case with >= 2 folds"
                     % ("3-5" if tier == "quick" else "3-8", "" if tier == "quick" else ", each pair"))
     rep.set("samples", [{"kind": "fold", "size": 5, "eventless": [2], "a": 2, "b": 8, "n": 2, "span": 2},
@@ -297,7 +324,7 @@ def replay(case, **kw):
     fold = (pts[case["a"]], pts[case["b"]])
     fold2 = (pts[case["second"][0]], pts[case["second"][1]]) if case.get("second") else None
     try:
-        msgs, _, _ = run_case(G, set(case["eventless"]), fold, case["n"], case["span"], fold2, case["which"], case.get("latent_only"), case.get("descending", False))
+        msgs, _, _ = run_case(G, set(case["eventless"]), fold, case["n"], case["span"], fold2, case["which"], case.get("latent_only"), case.get("descending", False), case.get("grown"))
     except Exception as ex:
         msgs = ["building/running the case raised %r" % (ex,)]
     return msgs
